@@ -45,6 +45,9 @@ class Broker:
         self.log = []              # ('consumer', group, auto_commit) / ('commit', group, part, offset, seq)
         self.seq = 0
         self.clock = lambda: 0.0
+        self.keyed = False            # True: messages at even offsets carry a key, the others none
+        self.fail_committed = 0       # the next n calls of committed() raise (transient broker error)
+        self.fail_watermark = ()      # partitions whose watermark query always fails
 
     def produce(self, part, val):
         self.parts[part].append(val)
@@ -70,7 +73,7 @@ class Consumer:
             return None
         p = BROKER.parts[self.assigned.partition]
         if self.pos < len(p):
-            m = Message(self.pos, p[self.pos])
+            m = Message(self.pos, p[self.pos], key=(b"k" if (BROKER.keyed and self.pos % 2 == 0) else None))
             self.pos += 1
             return m
         return None
@@ -85,9 +88,15 @@ class Consumer:
     def get_watermark_offsets(self, tp, timeout=None, cached=False):
         if tp.partition >= len(BROKER.parts):
             raise KafkaException("unknown partition %r" % (tp,))
+        if tp.partition in BROKER.fail_watermark and self.assigned is None and getattr(self, "_probed", False):
+            raise KafkaException("watermark query failed for %r" % (tp,))
+        self._probed = True        # (the very first query is start()'s own connectivity probe)
         return (0, len(BROKER.parts[tp.partition]))
 
     def committed(self, tps, timeout=None):
+        if BROKER.fail_committed > 0:
+            BROKER.fail_committed -= 1
+            raise KafkaException("committed(): broker transport failure")
         return [TopicPartition(tp.topic, tp.partition, BROKER.committed.get((self.group, tp.partition), -1001))
                 for tp in tps]
 
